@@ -49,6 +49,14 @@ func (s *swamp) PatchExpired(howMany int32, ops []msgpackpatch.Op, condition *ms
 	if capPredicate != nil {
 		s.capMu.Lock()
 		defer s.capMu.Unlock()
+		if verifhook.Enabled {
+			verifhook.Point("pexp.locked", s)
+		}
+		defer func() {
+			if verifhook.Enabled {
+				verifhook.Point("pexp.unlocking", s)
+			}
+		}()
 	}
 
 	atomic.StoreInt64(&s.lastInteractionTime, time.Now().UnixNano())
@@ -70,6 +78,13 @@ func (s *swamp) PatchExpired(howMany int32, ops []msgpackpatch.Op, condition *ms
 
 	if verifhook.Enabled {
 		verifhook.Point("pexp.selected", len(selected))
+	}
+	if verifhook.Enabled {
+		keys := make([]string, len(selected))
+		for i, t := range selected {
+			keys[i] = t.GetKey()
+		}
+		verifhook.Point("pexp.keys", s, keys, capReached)
 	}
 	results := make([]PatchExpiredEntry, 0, len(selected))
 
